@@ -548,8 +548,64 @@ def rule_h(ctx):
     o.construct = o.construct + '#json-str-int-keys'
 
 
+def rule_i(ctx):
+  """list.remove(x) removes the first item that IS x or equals x (identity first: a NaN
+  stored in the list is found although nan != nan).  List.remove decides a match with
+  `item is value or item == value` - an `is` test OR-ed with the equality."""
+  idx = ctx.index
+  f = idx.lookup_method(S.LIST, 'remove')
+  if f is None or idx.enclosing_class(f).fq != S.LIST:
+    ctx.ob('C02.i', f'{S.LIST}.remove', True, 'remove is inherited from list', idx.cls(S.LIST).loc)
+    return
+  params = A.param_names(f.node)
+  val = params[1] if len(params) > 1 else 'value'
+  tests = [n for n in ast.walk(f.node) if isinstance(n, (ast.If, ast.IfExp)) and val in A.names_read(n.test)]
+  ok = False
+  for t in tests:
+    te = t.test
+    parts = te.values if isinstance(te, ast.BoolOp) and isinstance(te.op, ast.Or) else [te]
+    has_is = any(isinstance(p, ast.Compare) and any(isinstance(o, ast.Is) for o in p.ops) and val in A.names_read(p) for p in parts)
+    has_eq = any((isinstance(p, ast.Compare) and any(isinstance(o, ast.Eq) for o in p.ops) and val in A.names_read(p))
+                 or (isinstance(p, ast.Call) and (A.call_name(p) or '').split('.')[-1] == 'eq') for p in parts)
+    if has_is and has_eq:
+      ok = True
+  ctx.ob('C02.i', f'{S.LIST}.remove#identity-or-equality', ok,
+         'an item matches when it is the value or equals it (as list.remove does)', f.loc,
+         'the match is decided by `==` alone: l = pg.List([nan, 1]); l.remove(nan) raises ValueError where a list removes it')
+
+
+def rule_j(ctx):
+  """Every update of one rebind is applied: List._sym_rebind applies its updates in
+  DESCENDING index order (so that deletions do not shift the positions still to come);
+  positions past the end mean "append", and applied in that order they come out reversed -
+  or one overwrites another (`l.rebind({3: 'a', 4: 'b'})` on three items lost 'b').  With a
+  reverse-sorted walk, the past-the-end updates are split off by a comparison of the index
+  with the size and applied in ascending order."""
+  idx = ctx.index
+  f = idx.lookup_method(S.LIST, '_sym_rebind')
+  rev = [c for c in A.calls_in(f.node) if A.call_name(c) == 'sorted' and any(
+      kw.arg == 'reverse' and A.unparse(kw.value) == 'True' for kw in c.keywords)]
+  if not rev:
+    ctx.ob('C02.j', f'{S.LIST}._sym_rebind#appends-in-order', True, 'updates are not applied in descending order', f.loc)
+    return
+  size_names = {nm for st in ast.walk(f.node) if isinstance(st, ast.Assign) and A.unparse(st.value) == 'len(self)'
+                for nm in A.assigned_names(st.targets[0])} | {'len(self)'}
+  split = [c for c in ast.walk(f.node) if isinstance(c, ast.Compare) and len(c.ops) == 1 and isinstance(c.ops[0], (ast.GtE, ast.Gt, ast.Lt, ast.LtE))
+           and (A.unparse(c.comparators[0]) in size_names or A.unparse(c.left) in size_names)]
+  asc = [c for c in A.calls_in(f.node) if (A.call_name(c) or '').endswith('.reverse') or (A.call_name(c) == 'sorted' and c not in rev)
+         or A.call_name(c) == 'reversed']
+  applies = [c for c in A.calls_in(f.node) if (A.call_name(c) or '').endswith('_set_item_of_current_tree')]
+  ok = bool(split) and len(applies) >= 2 and bool(asc)
+  ctx.ob('C02.j', f'{S.LIST}._sym_rebind#appends-in-order', ok,
+         'updates past the end are split off from the descending walk and applied in ascending order', f.loc,
+         'all updates are applied in descending index order: two appends of one rebind come out reversed, or the lower one '
+         'overwrites the higher one (l.rebind({3: \'a\', 4: \'b\'}) -> [1, 2, 3, \'a\'])')
+
+
 def run(ctx):
   ctx.consult(*FILES)
+  rule_i(ctx)
+  rule_j(ctx)
   rule_a(ctx)
   rule_a2(ctx)
   rule_b(ctx)
